@@ -942,6 +942,11 @@ func c17Stale(r *vfkit.R, rng *rand.Rand, idx int) {
 // c17Partition: a leader which can reach no more than half of the nodes stops serving clients.
 func c17Partition(r *vfkit.R, e *vfEnv, rng *rand.Rand, idx int) {
 	n := 3 + rng.Intn(3)
+	// every other run: an even-sized cluster whose leader keeps exactly half of the nodes (itself included)
+	exactHalf := idx%2 == 0
+	if exactHalf {
+		n = 4
+	}
 	names := c17NameSets[rng.Intn(len(c17NameSets))]
 	failAfter := 2 + rng.Intn(2)
 	cl := c17Start(rng, n, 14, 12, failAfter, names)
@@ -987,6 +992,10 @@ func c17Partition(r *vfkit.R, e *vfEnv, rng *rand.Rand, idx int) {
 	// cut the leader off from k nodes
 	reach := n - 1
 	cut := 1 + rng.Intn(n-1)
+	if exactHalf {
+		cut = n / 2
+		r.Hit("leader_with_exactly_half")
+	}
 	blocked := map[string]bool{}
 	others := []string{}
 	for _, x := range cl.names {
